@@ -68,7 +68,8 @@ pub fn run(rep: &Report) {
         let mode = ["plain", "interpreted", "trap-flag"][i % 3];
         let (p, desc) = build(&mut rng, mode == "trap-flag");
         let desc = format!("{} [{}]", desc, mode);
-        let src = p.render_plain().text;
+        // the spelling varies too: every other program has its mnemonics, prefixes, registers and keywords in upper case
+        let src = if (i / 3) % 2 == 1 { p.render(&mut Spell::upper(), &Layout::plain()).text } else { p.render_plain().text };
         let rr = ref_run(&p, 10_000);
         let nexts = b"n\n".repeat(800);
         let out = run_cli(src.as_bytes(), &CliOpts { interpreted: mode == "interpreted", stdin: if mode == "plain" { b"" } else { &nexts }, cap: 32 << 20, ..Default::default() });
